@@ -164,6 +164,15 @@ def edge_programs(tier):
         if n <= 20000:
             progs.append(("chain-dtor:%d" % n, noded + main_prog(["Node head = null;", "for (int i = 0; i < %d; i = i + 1) { head = new Node(i, head); }" % n, "echo(head.v);"])))
             progs.append(("chain-error-teardown:%d" % n, node2 + main_prog(["Node head = null;", "for (int i = 0; i < %d; i = i + 1) { head = new Node(i, head); }" % n, "int z = 0;", "echo(head.v / z);"])))
+    # e5. a runtime error raised by a destructor somewhere down a chain that is released in one go (the error must surface as a diagnostic
+    # whatever the depth at which the failing object dies)
+    for n in (20, 150, 400):
+        for k in sorted(set([0, 1, n // 2, n - 130 if n > 130 else n - 2, n - 2, n - 1])):
+            if k < 0:
+                continue
+            nodee = ("class Node { public int v; public Node next; public constructor(int v, Node n) -> Node { this.v = v; this.next = n; } "
+                     "public destructor() -> void { if (this.v == %d) { int z = 0; echo(1 / z); } } }\n" % k)
+            progs.append(("chain-dtor-error:%d:%d" % (n, k), nodee + main_prog(["Node head = null;", "for (int i = 0; i < %d; i = i + 1) { head = new Node(i, head); }" % n, "echo(head.v);", "head = null;", "echo(\"unreached or reached\");"])))
     # f. a runtime error at every statement position of programs that hold live objects everywhere
     holder = """class Own { public int id; public qubit q; public Own other; public constructor(int i) -> Own { this.id = i; this.other = null; } public destructor() -> void { echo("~Own" + this.id); } public function poke(Own o) -> int { return this.id + o.id; } }
 class Plain { public int id; public Plain peer; public constructor(int i) -> Plain { this.id = i; this.peer = null; return this; } public destructor() -> void { echo("~Plain" + this.id); } }
